@@ -95,6 +95,17 @@ func relClose(a, b float64) bool {
 	return math.Abs(a-b) <= 1e-9*math.Max(math.Abs(a), math.Abs(b))+1e-12
 }
 
+// rectCloseMag compares two boxes whose coordinates are sums of terms of
+// magnitude up to magX / magY: different (equally legitimate) orders of
+// evaluation of x*a + y*c + tx differ by rounding errors relative to the
+// terms, not to the - possibly cancelled - result.
+func rectCloseMag(a, b rect.Rect, magX, magY float64) bool {
+	cl := func(u, v, mag float64) bool {
+		return relClose(u, v) || math.Abs(u-v) <= 1e-9*mag
+	}
+	return cl(a.LLx, b.LLx, magX) && cl(a.LLy, b.LLy, magY) && cl(a.URx, b.URx, magX) && cl(a.URy, b.URy, magY)
+}
+
 func rectClose(a, b rect.Rect) bool {
 	return relClose(a.LLx, b.LLx) && relClose(a.LLy, b.LLy) && relClose(a.URx, b.URx) && relClose(a.URy, b.URy)
 }
@@ -196,6 +207,17 @@ func runC19(r *rt.Runner) {
 			toPDF := func(x, y float64) (float64, float64) {
 				return (x*M[0] + y*M[2] + M[4]) * 1000, (x*M[1] + y*M[3] + M[5]) * 1000
 			}
+			// magnitude of the terms in toPDF over all points of the font
+			var magX, magY float64
+			for _, g := range f.Glyphs {
+				for _, cmd := range g.Cmds {
+					for k := 0; k+1 < len(cmd.Args); k += 2 {
+						x, y := math.Abs(cmd.Args[k]), math.Abs(cmd.Args[k+1])
+						magX = math.Max(magX, (x*math.Abs(M[0])+y*math.Abs(M[2])+math.Abs(M[4]))*1000)
+						magY = math.Max(magY, (x*math.Abs(M[1])+y*math.Abs(M[3])+math.Abs(M[5]))*1000)
+					}
+				}
+			}
 			var boxes, boxesPDF []rect.Rect
 			wm := f.WidthsMapPDF()
 			if len(wm) != len(f.Glyphs) {
@@ -215,7 +237,7 @@ func runC19(r *rt.Runner) {
 						c.Violation("type1|glyph-bbox", fmt.Sprintf("glyph %q: BBox() = %v, re-computed %v", nme, got, wantBox), "")
 					}
 				}
-				if got := f.GlyphBBoxPDF(nme); !rectClose(got, wantPDF) {
+				if got := f.GlyphBBoxPDF(nme); !rectCloseMag(got, wantPDF, magX, magY) {
 					c.Violation("type1|glyph-bbox-pdf", fmt.Sprintf("GlyphBBoxPDF(%q) = %v, re-computed %v (glyph present: %v)", nme, got, wantPDF, g != nil), "")
 				}
 				// width
@@ -241,7 +263,7 @@ func runC19(r *rt.Runner) {
 			if got, want := f.FontBBox(), unionBoxes(boxes); !rectClose(got, want) {
 				c.Violation("type1|font-bbox", fmt.Sprintf("FontBBox() = %v, union of the non-empty glyph boxes = %v", got, want), "")
 			}
-			if got, want := f.FontBBoxPDF(), unionBoxes(boxesPDF); !rectClose(got, want) {
+			if got, want := f.FontBBoxPDF(), unionBoxes(boxesPDF); !rectCloseMag(got, want, magX, magY) {
 				c.Violation("type1|font-bbox-pdf", fmt.Sprintf("FontBBoxPDF() = %v, union of the non-empty glyph boxes = %v", got, want), "")
 			}
 			for ft := range o.features {
